@@ -920,6 +920,7 @@ func ruleIdentUse(w *World, r *Report, pkg *ssa.Package, tag string) {
 func ruleHashMove(w *World, r *Report, nt *nodeTypes) {
 	const rule = "R-HASHMOVE"
 	ruleHashNoArith(w, r, nt)
+	ruleHashFoldAll(w, r, nt)
 	for _, t := range nt.names {
 		fn := nt.method(t, "hashCode")
 		cls := nt.classifyHash(fn, 0)
@@ -1540,6 +1541,66 @@ func ruleListDiff(w *World, r *Report, pkg *ssa.Package) {
 		}
 		r.Check(okRec, rule, fnName(fnRest)+":same-kind-recursion", w.Pos(fnRest.Pos()), "containers of the same kind at the same position are diffed recursively (on the sameContainerType-true edge)",
 			"same-position containers are no longer diffed recursively: they are replaced wholesale")
+		// ... and replaced pairwise only when they are not: a block that moves the element under the first
+		// cursor into Remove and the element under the second cursor into Add (one position replaced by
+		// another) lies behind the false outcome of the same-kind test — if it can also be reached past that
+		// test (a second condition in front of it), same-kind containers are replaced wholesale on those paths
+		for _, wf := range walkSet {
+			if wf == fnDiff {
+				continue
+			}
+			k := 0
+			for _, b := range wf.Blocks {
+				stores := map[string]bool{}
+				for _, in := range b.Instrs {
+					st, ok := in.(*ssa.Store)
+					if !ok {
+						continue
+					}
+					fa, ok := st.Addr.(*ssa.FieldAddr)
+					if !ok {
+						continue
+					}
+					name := fieldName(fa.X.Type(), fa.Field)
+					if name != "Remove" && name != "Add" {
+						continue
+					}
+					if c, isApp := isBuiltinCall(strip(st.Val), "append"); isApp && len(c.Call.Args) == 2 {
+						stores[name] = true
+					}
+				}
+				if !stores["Remove"] || !stores["Add"] {
+					continue
+				}
+				k++
+				behind := false
+				calls := 0
+				for _, tb := range wf.Blocks {
+					cond, _, fE, okb := branchEdges(tb)
+					if !okb {
+						continue
+					}
+					cc, isC := cond.(*ssa.Call)
+					if !isC {
+						continue
+					}
+					if sf := staticCallee(cc); sf != nil && w.helperIs(sf, "sameContainerType") {
+						calls++
+						if edgeDominates(fE, b) {
+							behind = true
+						}
+					}
+				}
+				key := fmt.Sprintf("%s:pairwise-replacement#%d", fnName(wf), k)
+				if calls == 0 {
+					r.Ok(rule, key, w.Pos(b.Instrs[0].Pos()), "no branch on the same-kind test in this function: this clause makes no claim (not decided)")
+					continue
+				}
+				r.Check(behind, rule, key, w.Pos(b.Instrs[0].Pos()),
+					"one position is replaced by another only behind the false outcome of the same-kind test",
+					"the block that replaces the element under one cursor by the element under the other can be reached without the same-kind test having answered false: on those paths containers of the same kind at the same position are replaced wholesale instead of being diffed recursively")
+			}
+		}
 	}
 	// same-kind test looks at kinds only
 	{
@@ -3023,5 +3084,159 @@ func ruleLoopFresh(w *World, r *Report, pkg *ssa.Package, tag string, fnNames []
 		r.Check(bad == "", rule, fnName(fn)+":per-hunk-lists", w.Pos(fn.Pos()),
 			fmt.Sprintf("the %d value lists stored into hunks inside loops are allocated per iteration", n),
 			bad+": every hunk built by the loop shares one backing array and ends up with the values of the last one")
+	}
+}
+
+// ruleHashFoldAll — clause of R-HASHMOVE: a helper that folds a list of
+// digests into one (hashCodes.combine) and is reached from the multiset digest
+// or from identity hashing writes *every* element of the list into the hash
+// input. Multiplicities matter to both callers (a bag with two copies is not
+// the bag with one; an identity in which two keys carry the same value is not
+// the identity in which one does), so an iteration that can get back to the
+// loop header without having written its element (`continue` on a repeated
+// digest) makes different bags / identities hash alike. De-duplication for the
+// set reading belongs in the set's own hashCode, which this clause does not
+// look at.
+func ruleHashFoldAll(w *World, r *Report, nt *nodeTypes) {
+	const rule = "R-HASHMOVE"
+	dig := nt.method(nt.names[0], "hashCode").Signature.Results().At(0).Type()
+	isDigestList := func(t types.Type) bool {
+		sl, ok := t.Underlying().(*types.Slice)
+		return ok && types.Identical(sl.Elem().Underlying(), dig.Underlying())
+	}
+	// roots: the multiset digest and identity hashing
+	var roots []*ssa.Function
+	for _, fn := range w.FuncsOf(nt.pkg) {
+		if fn.Signature.Recv() != nil && canonFnName(fn) == "hashCode" && typeName(fn.Signature.Recv().Type()) == "jsonMultiset" {
+			roots = append(roots, fn)
+		}
+		if canonFnName(fn) == "ident" {
+			roots = append(roots, fn)
+		}
+	}
+	seen := map[*ssa.Function]bool{}
+	work := append([]*ssa.Function{}, roots...)
+	for len(work) > 0 {
+		f := work[0]
+		work = work[1:]
+		if seen[f] {
+			continue
+		}
+		seen[f] = true
+		withClosures(f, func(g *ssa.Function) {
+			allInstrs(g, func(in ssa.Instruction) {
+				if c, ok := in.(ssa.CallInstruction); ok {
+					if sf := staticCallee(c); sf != nil && sf.Blocks != nil && fnPkg(sf) == nt.pkg.Pkg && !seen[sf] {
+						work = append(work, sf)
+					}
+				}
+			})
+		})
+	}
+	var fns []*ssa.Function
+	for f := range seen {
+		fns = append(fns, f)
+	}
+	sort.Slice(fns, func(i, j int) bool { return fnName(fns[i]) < fnName(fns[j]) })
+	n := 0
+	for _, fn := range fns {
+		if canonFnName(fn) == "hashCode" || canonFnName(fn) == "ident" {
+			continue // the callers build their lists themselves; the clause is about the shared fold
+		}
+		var list ssa.Value
+		for _, p := range fn.Params {
+			if isDigestList(p.Type()) {
+				list = p
+			}
+		}
+		if list == nil {
+			continue
+		}
+		returnsDigest := false
+		for i := 0; i < fn.Signature.Results().Len(); i++ {
+			if types.Identical(fn.Signature.Results().At(i).Type().Underlying(), dig.Underlying()) {
+				returnsDigest = true
+			}
+		}
+		if !returnsDigest {
+			continue
+		}
+		for li, lp := range loopsOf(fn) {
+			readsElem := false
+			writes := map[*ssa.BasicBlock]bool{}
+			for b := range lp.Blocks {
+				for _, in := range b.Instrs {
+					switch x := in.(type) {
+					case *ssa.IndexAddr:
+						if strip(x.X) == list {
+							readsElem = true
+						}
+					case *ssa.Index:
+						if strip(x.X) == list {
+							readsElem = true
+						}
+					case *ssa.Call:
+						isWrite := false
+						if bi, ok := x.Call.Value.(*ssa.Builtin); ok && (bi.Name() == "append" || bi.Name() == "copy") {
+							isWrite = true
+						} else if x.Call.IsInvoke() && x.Call.Method.Name() == "Write" {
+							isWrite = true
+						} else if sf := staticCallee(x); sf != nil && sf.Name() == "Write" {
+							isWrite = true
+						}
+						if !isWrite {
+							continue
+						}
+						for _, a := range x.Call.Args {
+							if sl, ok := a.Type().Underlying().(*types.Slice); ok {
+								if bt, ok := sl.Elem().Underlying().(*types.Basic); ok && bt.Kind() == types.Uint8 {
+									writes[b] = true
+								}
+							}
+						}
+					}
+				}
+			}
+			if !readsElem || len(writes) == 0 {
+				continue
+			}
+			n++
+			// can an iteration return to the header without passing a write?
+			skip := false
+			visited := map[*ssa.BasicBlock]bool{}
+			var stack []*ssa.BasicBlock
+			for _, sc := range lp.Header.Succs {
+				if lp.Blocks[sc] && !writes[sc] {
+					stack = append(stack, sc)
+				}
+			}
+			if writes[lp.Header] {
+				stack = nil
+			}
+			for len(stack) > 0 && !skip {
+				b := stack[len(stack)-1]
+				stack = stack[:len(stack)-1]
+				if b == lp.Header {
+					skip = true
+					break
+				}
+				if visited[b] {
+					continue
+				}
+				visited[b] = true
+				for _, sc := range b.Succs {
+					if lp.Blocks[sc] && !writes[sc] {
+						stack = append(stack, sc)
+					}
+				}
+			}
+			r.Fn(fnName(fn))
+			r.Check(!skip, rule, fmt.Sprintf("%s:fold-writes-every-element#%d", fnName(fn), li+1), w.Pos(lp.Header.Instrs[0].Pos()),
+				"every iteration over the digests to be folded writes its element into the hash input",
+				"an iteration over the digests to be folded can return to the loop header without writing its element into the hash input: repeated digests (two copies in a multiset, two identity keys with the same value) are dropped, so different bags or identities hash alike")
+		}
+	}
+	if n == 0 {
+		r.Ok(rule, nt.tag+":fold-writes-every-element", "-", "no shared digest fold reached from the multiset digest or identity hashing: this clause makes no claim (not decided)")
 	}
 }
